@@ -240,7 +240,7 @@ class PauliStringCollection:
         self.classification = None
         new_generators: list[PauliString] = []
         for g in self.generators:
-            g = g.expand(n)
+            new_generators.append(g.expand(n))
         self.generators = new_generators
 
     def _processing(self, p: PauliString) -> PauliString:
